@@ -62,6 +62,8 @@ func runC04(c *core.Ctx) {
 	nProd := checkEncoderLoopsProductive(c, "C04.count-matches-elements", encoders)
 	c.Floor("collecting/emitting loops inside encoders of the scope", nProd, 20)
 	nPairs := checkCountNamesCollection(c, "C04.count-matches-elements", encoders)
+	nMapPairs := checkCountNamesMap(c, "C04.count-matches-elements", encoders)
+	c.Floor("count-prefix/sorted-map-loop pairs in encoders", nMapPairs, 3)
 	c.Floor("count-prefix/loop pairs inside encoders of the scope", nPairs, 5)
 	nRem := checkRemainingBytesBounds(c, "C04.bound-accepts-encoder-output", decoders)
 	c.Floor("remaining-bytes bounds on wire counts in decoders of the scope", nRem, 2)
